@@ -327,6 +327,9 @@ def run(ctx):
         progs.append(p)
     for i in range(n):
         progs.append(gen_program(rng.fork(i), rng.rint(2, 12)))
+    nest = nesting_programs(rng, ctx.n(80, 1500))
+    progs += nest
+    ctx.streams["three-level nesting patterns"] = len(nest)
     reqs = [(10, [enc_stmt(s) for s in p]) for p in progs]
     outs = ctx.model.run(reqs)
     reported = set()
@@ -381,6 +384,46 @@ def corpus_programs():
          {"op": "add", "v": 1, "off": 1, "operand": {"var": 2}, "merge": False},
          {"op": "add", "v": 0, "off": 1, "operand": {"var": 1}, "merge": False}],
     ]
+
+
+def nesting_programs(rng, count):
+    """Structured programs: three levels of nesting (inner circuit in a middle one in an outer one) with every offset
+    and every way of attaching (add merge / no merge, //, @) at both levels, and a second, different leaf next to the
+    nested circuit at each level — the shapes where the attachment offset of a nested sub-circuit matters."""
+    progs = []
+    for i in range(count):
+        r = rng.fork(("nest", i))
+        m_in = r.rint(1, 2)
+        m_mid = r.rint(m_in + 1, m_in + 2)
+        m_out = r.rint(m_mid + 1, m_mid + 2)
+        p = [{"op": "new", "v": 0, "m": m_out}, {"op": "new", "v": 1, "m": m_mid}, {"op": "new", "v": 2, "m": m_in}]
+        for _ in range(r.rint(1, 2)):
+            lf = gen.rand_leaf(r, m_in)
+            p.append({"op": "ifloordiv", "v": 2, "off": r.rint(0, m_in - lf.k), "operand": {"leaf": lf}})
+
+        def attach(v, w, m_v, m_w):
+            off = r.rint(0 if r.chance(1, 4) else 1, m_v - m_w)
+            how = r.choice(["add-merge", "add-nest", "ifloordiv", "imatmul"])
+            if how == "add-merge":
+                return {"op": "add", "v": v, "off": off, "operand": {"var": w}, "merge": True}
+            if how == "add-nest":
+                return {"op": "add", "v": v, "off": off, "operand": {"var": w}, "merge": False}
+            return {"op": how, "v": v, "off": off, "operand": {"var": w}}
+        if r.chance(1, 2):
+            lf = gen.rand_leaf(r, m_mid)
+            p.append({"op": "ifloordiv", "v": 1, "off": r.rint(0, m_mid - lf.k), "operand": {"leaf": lf}})
+        p.append(attach(1, 2, m_mid, m_in))
+        if r.chance(1, 2):
+            lf = gen.rand_leaf(r, m_mid)
+            p.append({"op": "ifloordiv", "v": 1, "off": r.rint(0, m_mid - lf.k), "operand": {"leaf": lf}})
+        if r.chance(1, 2):
+            lf = gen.rand_leaf(r, m_out)
+            p.append({"op": "ifloordiv", "v": 0, "off": r.rint(0, m_out - lf.k), "operand": {"leaf": lf}})
+        p.append(attach(0, 1, m_out, m_mid))
+        if r.chance(1, 3):
+            p.append({"op": "copy", "dst": 3, "v": 0})
+        progs.append(p)
+    return progs
 
 
 def replay(ctx, case):
